@@ -1036,13 +1036,18 @@ impl Family for FactorFamily {
 
     fn rule(&self, prop: &str, tier: Tier) -> String {
         format!(
-            "family factor/{prop}/{}: base scenario i = (n built from generator-chosen primes in 12 shapes, up to 250 bits for auto, selector in \
+            "family factor/{prop}/{}: {}base scenario i = (n built from generator-chosen primes in 12 shapes, plus 129-175+-bit (ECM-sized factors times p^2 / p^3 / semiprime / prime) and 191-250-bit smooth inputs for auto, selector in \
              {{auto,siqs,mpqs,qs,ecm}}, randomised fb_size/interval_size/large_factor/use_double) drawn from \
              PRNG(VERIF_SEED,{prop},i){}; for each, one single-threaded fault-free reference run, then {} simulated runs \
              varying worker count (1..16, machine default), claim policy, scheduling strategy (random/sticky/PCT1-3/round-robin), \
              stall faults, slow workers, bounded-stale Relaxed loads{}. A run is non-trivial if at some step at least two \
              simulated threads were runnable or a fault fired; distinct = distinct rolling hash of (chosen thread, pending operation kind) over all steps.",
             tier.name(),
+            match prop {
+                "C04" => "[one scenario in eight (index = 3 mod 8) is of another kind: 2-3 concurrent caller threads run factor() on ONE shared &Preferences, each call with its own pool, a share of the callers on >128-bit inputs with a P-1-smooth factor; references = sequential single-threaded executions of the same calls with the P-1 latch unset and set; 12 (quick) / 32 (thorough) schedules each] ",
+                "C05" => "[one scenario in eight (index = 5 mod 8) aborts classgroup::classgroup instead: fundamental discriminants of 33-96 bits (112 thorough), every poll instant single-threaded, then 12 (quick) / 32 (thorough) runs abort@poll/time/region x 2-16 workers x schedule; judged once an evaluation of the predicate has answered true] ",
+                _ => "",
+            },
             if prop == "C01" {
                 " (C01 only: 12 % of the scenarios use one of the selectors pm1, ecm128, rho, squfof, qs64, which have no schedule surface and are workload only)"
             } else {
